@@ -229,7 +229,7 @@ def writers(ctx, reader):
                     prec = int(m.group(3)) if m.group(3) else 6
                     ok = (ty in "Gg" and prec >= 12) or (ty in "Ee" and prec >= 11)
                     ctx.ob("R07.4", cons + ":%s" % ast.unparse(a)[:30], ok, "conversion %r has %d digits" % (m.group(0), prec), ret.lineno,
-                           "number written with fewer significant digits than the 12 used for coordinates: re-parsing loses precision")
+                           "number written with fewer significant digits than the 12 used for coordinates: re-parsing loses precision", detail="" if ok else m.group(0))
                 elif ty == "s":
                     f, _ = field_of(a)
                     ctx.ob("R07.4", cons + ":%s" % ast.unparse(a)[:30], f in ("end", "control", "control1", "control2", "start"), "%%s of %s" % ast.unparse(a), ret.lineno,
